@@ -60,6 +60,30 @@ SCRIPTS = [
          {"op": "src"},                                                  # A0..A4 + B5 B6 B7
          {"op": "resp", "kind": "block", "h": 6, "r": "ok", "ver": 2},   # B6: parent B5 is not the head A5
      ]},
+    # a valid block of ANOTHER height answers a request (first a higher one, later a lower one that the node already
+    # has): Store must refuse it with a plain error -> stream reset, no revert, no reorg notification
+    {"name": "wrong-height-answers", "seed": 17, "mode": "script", "new_state": True, "init_len": 9, "plan": [],
+     "decisions": [
+         {"op": "sync", "below": 5, "len": 5, "reqs": [5]},
+         {"op": "resp", "kind": "block", "h": 5, "r": "wh", "ver": 1, "bh": 7},
+         {"op": "sync", "below": 8, "len": 8, "reqs": [8]},
+         {"op": "resp", "kind": "block", "h": 8, "r": "wh", "ver": 1, "bh": 3},
+     ]},
+    # a forged block: state diff altered, hash recomputed (self-consistent header); only Store's state-root
+    # recomputation can refuse it; once on a current-format block, once on a pre-0.13.2 block (hash does not commit
+    # to the diff at all)
+    {"name": "forged-state-diff", "seed": 18, "mode": "script", "new_state": False, "init_len": 7, "plan": [],
+     "decisions": [
+         {"op": "sync", "below": 2, "len": 2, "reqs": [2]},
+         {"op": "resp", "kind": "block", "h": 2, "r": "fg", "ver": 1},      # tag 3: 0.14.1
+         {"op": "sync", "below": 3, "len": 3, "reqs": [3]},
+         {"op": "resp", "kind": "block", "h": 3, "r": "fg", "ver": 1},      # tag 4: 0.13.1
+     ]},
+    {"name": "forged-state-diff-newstate", "seed": 19, "mode": "script", "new_state": True, "init_len": 5, "plan": [],
+     "decisions": [
+         {"op": "sync", "below": 3, "len": 3, "reqs": [3]},
+         {"op": "resp", "kind": "block", "h": 3, "r": "fg", "ver": 1},
+     ]},
     {"name": "stale-head-at-tip", "seed": 14, "mode": "script", "new_state": True, "init_len": 6, "plan": [],
      "decisions": [
          {"op": "sync", "below": 6, "len": 6, "reqs": [6]},
@@ -201,12 +225,14 @@ def record_and_validate(ctx, binary, payload, sw, label):
     payload = dict(payload, trace_out=tracefile)
     res = ctx.run_engine(binary, "TestSyncRecord", payload, timeout=1500)
     traces = res.get("stats", {}).pop("traces", [])
-    if not traces:
+    if not traces and not res.get("divergences"):
         raise vlib.Broken("the recorder produced no trace")
     with open(tracefile) as f:
         lines = f.readlines()
     verdict = validate(ctx, lines, traces, sw, w=payload["gomaxprocs"])
     ctx.absorb(res, "sync", "TestSyncRecord")
+    if res.get("stats", {}).get("runs_node_hung"):
+        print("NOTE: the node hung after a violation was recorded; the remaining scenarios of this batch were not run", flush=True)
     agree = reconcile(ctx, traces, verdict)
     ctx.coverage["traces_tlc_accepted"] = ctx.coverage.get("traces_tlc_accepted", 0) + sum(
         1 for v in verdict.values() if v["accepted"])
